@@ -16,7 +16,8 @@ Record callobs := mkcall {
   co_args : list value;
   co_real : xres;                                   (* quasigo.Call *)
   co_go : xres;                                     (* the Go toolchain *)
-  co_trace : list (Z * list value * list value)     (* native calls observed: id, args, results *)
+  co_trace : list (Z * list value * list value);    (* native calls observed: id, args, results *)
+  co_vl0 : Z                                        (* variadicLen left in the EvalEnv before the call *)
 }.
 
 Record pcase := mkpcase {
@@ -113,7 +114,7 @@ Definition check_call (p : pcase) (vb : list vfunc) (vi : option (list vfunc)) (
     let rt := fun_res_ty fd in
     (match nthz vb (co_fn c) with
      | None => [(j, 98)]
-     | Some f => match res_matches rt (call_fun cfg vb nf fuel f (co_args c)) (co_real c) with
+     | Some f => match res_matches rt (call_fun_vl cfg vb nf (co_vl0 c) fuel f (co_args c)) (co_real c) with
                  | Some true => [] | Some false => [(j, c_vm_bytes)] | None => [(j, c_inconclusive)] end
      end) ++
     (match vi with
@@ -121,7 +122,7 @@ Definition check_call (p : pcase) (vb : list vfunc) (vi : option (list vfunc)) (
      | Some vis =>
        match nthz vis (co_fn c) with
        | None => [(j, 97)]
-       | Some f => match res_matches rt (call_fun cfg vis nf fuel f (co_args c)) (co_real c) with
+       | Some f => match res_matches rt (call_fun_vl cfg vis nf (co_vl0 c) fuel f (co_args c)) (co_real c) with
                    | Some true => [] | Some false => [(j, c_vm_instr)] | None => [(j, c_inconclusive + 1)] end
        end
      end) ++
